@@ -461,7 +461,7 @@ def run(rep, tier, seed, replay=None):
     quick = (tier == 'quick')
     with common.Scratch() as tmp:
         info = common.std_static(rep, 'C06', GEN_GROUPS, AGREE, tmp)
-        nseg = 120 if quick else 800
+        nseg = 130 if quick else 800
         if info['agree_failed'] or info['untranslated'].keys() - {'gen_Quad_length'}:
             nseg *= 3
         kmax = 10 if quick else 11
@@ -576,9 +576,9 @@ def run(rep, tier, seed, replay=None):
                     closed_meta.append((kind, params, sub, t0, t1, vals[:1], ctol))
                 # ---------- recursive chord rule (no-scipy), default error for cubics; for arcs a
                 #            coarser error keeps the model's trig evaluations affordable
-                if kind in ('cubic', 'arc') and n_sl < (16 if quick else 400) and not vanish:
+                if kind in ('cubic', 'arc') and n_sl < (24 if quick else 400) and not vanish:
                     import svgpathtools.path as P
-                    err, md = (1e-12, 5) if kind == 'cubic' else (1e-5 * scale, 3)
+                    err, md = ((1e-12, 5) if n_sl % 2 == 0 else (1e-4 * scale, 2)) if kind == 'cubic' else (1e-5 * scale, 3)
                     P._quad_available = False
                     try:
                         Ls = float(guarded(lambda: mk_seg(kind, params).length(t0, t1, error=err, min_depth=md), 30))
